@@ -323,7 +323,14 @@ func c29HasBackground(f *syntax.File, t c29Case) bool {
 	if t.Kind == "own" {
 		return false
 	}
-	return strings.Contains(t.Src, "&") || strings.Contains(t.Src, "coproc")
+	found := strings.Contains(t.Src, "coproc")
+	syntax.Walk(f, func(n syntax.Node) bool {
+		if st, ok := n.(*syntax.Stmt); ok && (st.Background || st.Coprocess || st.Disown) {
+			found = true
+		}
+		return !found
+	})
+	return found
 }
 
 func c29HasProcSubst(src string) bool {
@@ -590,7 +597,7 @@ func c29Class(t c29Case, what string, detail ...string) string {
 
 // c29Debug prints harness events when VERIF_C29_DEBUG is set.
 func c29Debug(what, s string) {
-	if os.Getenv("VERIF_C29_DEBUG") != "" {
+	if os.Getenv("VERIF_C29_DEBUG") != "" || strings.HasPrefix(what, "abandoned") {
 		fmt.Fprintf(os.Stderr, "c29 %s: %q\n", what, s)
 	}
 }
